@@ -35,6 +35,7 @@ class Universe:
             ref.key_from_seed("plain-2"),
         ]
         self.delegator = ref.key_from_seed("delegator-1")
+        self.dense_key = ref.key_from_seed("dense-1")
         self._n = 0
 
     def event(self, key=None, kind=None, created_at=None, tags=None, content=None, id_prefix=None,
@@ -57,6 +58,9 @@ class Universe:
                 if r.random() < 0.1:
                     t.append("extra")
                 tags.append(t)
+                if r.random() < 0.12:
+                    # the same tag name again with another value: one event under two requested values
+                    tags.append([name, r.choice(TAG_VALUES[:4])])
             if r.random() < 0.05:
                 tags.append([r.choice(TAG_NAMES)])
         if content is None:
@@ -90,12 +94,36 @@ class Universe:
                                           tags=[["e", tgt["id"]]]))
             else:
                 evs.append(self.event(delegated=(r.random() < 0.08), hostile=hostile))
+        # a "densely tagged" author: every one of its events carries a requested value of #t, a third carry two of
+        # them - chained plans that walk the author/kind index first find (nearly) all their candidates in the tag index
+        if n >= 20:
+            dk = self.dense_key
+            for j in range(r.choice([4, 6, 9])):
+                tv = r.choice([["a"], ["ab"], ["a", "ab"], ["ab", "a"], ["a", "ab", "abc"]])
+                evs.insert(r.randrange(len(evs) + 1), self.event(key=dk, kind=r.choice([1, 1, 7, 2]), tags=[["t", v] for v in tv]))
         return evs
 
     # ---- filters -------------------------------------------------------------------
     def wellformed_filter(self, events, max_conds=3, limit=None):
         r = self.rng
         f = {}
+        if max_conds >= 2 and r.random() < 0.08:
+            # "wide" shape: so many author x kind combinations that the planner walks the author+kind index
+            # first and the tag index only as a later link of the chain, with a multi-valued tag condition
+            if r.random() < 0.6:
+                f["authors"] = [self.dense_key.pk]
+                name = "t"
+                f["#t"] = r.choice([["a", "ab"], ["ab", "a"], ["a", "ab", "abc"], ["a", "b", "ab"]])
+            else:
+                f["authors"] = [k.pk for k in r.sample(self.keys, r.choice([1, 2, 3]))]
+                name = r.choice(TAG_NAMES[:3])
+                f["#" + name] = r.sample(TAG_VALUES[:4], r.choice([2, 3]))
+            f["kinds"] = sorted(set(KINDS_REGULAR + [0, 3, 5, 10000, 30000, 2, 6, 8, 9]))[: r.choice([10, 12, 17])]
+            if r.random() < 0.3:
+                f[r.choice(["since", "until"])] = r.choice(TS_GRID)
+            if limit is not None:
+                f["limit"] = limit
+            return f
         conds = r.sample(["ids", "authors", "kinds", "tag", "tag2", "since", "until"], r.randint(1, max_conds))
         pool = events if events else [self.event()]
         for c in conds:
